@@ -26,12 +26,16 @@ STANDALONE = ['Min', 'Max', 'Variance', 'Quantile', 'Mean', 'Kurtosis', 'M6', 'S
 RULE = ('For one sequence (section-3.1 values, length 0..200, pairs for the 2-ary estimators) the estimator is built by '
         'add-in-a-loop, collect by value, collect by reference, extend by value / by reference in 1-3 pieces, default()+add, '
         'and mixtures collect(prefix)+extend(middle)+add(rest) at random or (short sequences) all split points; every '
-        'accessor of every variant must be bit-identical to the add loop (NaN==NaN, +0 != -0). estimate() must be '
+        'accessor of every variant must be bit-identical to the add loop (NaN==NaN, +0 != -0); the add loop itself is run by '
+        'method syntax and through the Estimate trait (UFCS). estimate() must be '
         'bit-identical to the headline accessor. concatenate! structs with 2, 3 and 5 fields (short and long syntax, incl. '
         'Quantile and a define_moments! type) built by new()/default()/collect (value, reference) must report for each '
         'statistic the bit pattern of the stand-alone estimator fed the same sequence. distinct_nontrivial = distinct '
         '(type, program) cases over a sequence of length >= 2.')
 ASSUME = ['driver faithfully prints accessor bit patterns']
+
+
+TRAIT_ADD = ('Mean', 'Variance', 'Skewness', 'Kurtosis', 'Min', 'Max', 'Quantile')
 
 
 def pieces(rng, xs, arity, k):
@@ -61,6 +65,12 @@ def ingestion_case(cid, typ, xs, arity, rng, splits=None):
     if xs:
         c.op('A', 6, xs)
     regs.append((6, 'default+add'))
+    if typ in TRAIT_ADD:
+        # the add loop as generic code reaches it: Estimate::add through the trait, not method syntax on the concrete type
+        c.op('N', 10)
+        if xs:
+            c.op('AT', 10, xs)
+        regs.append((10, 'add_via_trait'))
     if splits is None:
         a = rng.randint(0, n)
         b = rng.randint(a, n)
